@@ -30,9 +30,16 @@ def judge(module: str, cases: list, scratch: str, *, chunks: int = 16, cfg: str 
             json.dump(part, f)
         env = {"CASES": path}
         env.update(extra_env or {})
-        r = tlc.run(module, cfg, workers=1, env=env, scratch=scratch, timeout=timeout, parse_trace=False)
+        for attempt in range(3):
+            r = tlc.run(module, cfg, workers=1, env=env, scratch=scratch, timeout=timeout, parse_trace=False)
+            vals = tlc.printed_values(r.out, tag)
+            if len(vals) == 1:
+                break
+            # the JVM did not come up or was killed (many TLC processes at once on a loaded machine): not a verdict, try again
+            import time
+
+            time.sleep(2 + 3 * attempt)
         os.unlink(path)
-        vals = tlc.printed_values(r.out, tag)
         if len(vals) != 1:
             raise RuntimeError(f"TLC batch {module} chunk {idx} failed:\n{r.out[-1200:]}")
         v = vals[0]
